@@ -10,7 +10,8 @@ import Mathlib.Tactic.Positivity
 
 `sqrt` is a function with the defining properties of the square root (`SqrtSpec`), so the same
 statements hold over every ordered field that has one — in particular over `ℝ` with `Real.sqrt`.
-`CosSpec c` is the algebraic contract of `c = cos(π/4) = sin(π/4)`.
+`CosSpec c` is the algebraic contract of `c = cos(π/4) = sin(π/4)` (what persim/wasserstein.py computed the diagonal cost with
+until the /repo fix of the diagonal cost; the Wasserstein model no longer has the parameter).
 -/
 namespace PersimVerif.Spec
 
